@@ -97,9 +97,8 @@ func (p *Prog) finders() []*finder {
 				}
 			}
 		}
-		if len(f.consumes) == 0 {
-			continue // a driver (DeleteMultiOffsets), not a finder
-		}
+		// (a function of this shape that never consumes is still judged: what it selects cannot be
+		// the offset of a message it read)
 		out = append(out, f)
 	}
 	sort.Slice(out, func(i, j int) bool { return out[i].fn.Pos() < out[j].fn.Pos() })
@@ -726,6 +725,12 @@ func ruleR38(p *Prog) []Ob {
 				}
 				if sinks == 0 {
 					bad = append(bad, "the finder's result is not handed to any delete")
+				}
+				// no answer of the wrapper's own: every success return lies behind the finder
+				for _, rt := range returnsOf(fn) {
+					if !ea.isFailureReturn(fn, rt) && !c.Block().Dominates(rt.Block()) {
+						bad = append(bad, p.at(rt)+": the wrapper reports success without having asked its finder (for some arguments nothing is trimmed although the finder would select messages)")
+					}
 				}
 				if sinks > 1 {
 					bad = append(bad, "the same set is handed to more than one delete: the later one meets offsets that are already gone, and Delete picks its segment from the lowest of them")
